@@ -166,4 +166,19 @@ def generateTlv (tl ll : Nat) (tp lp : Char) : List (Str × Str) → Except PyEr
       | .error e' => .error e'
       | .ok r => .ok (e ++ r)
 
+/-! ### vocabulary of the property statements -/
+
+/-- every tag and every length text fits its field -/
+def Fits (tl ll : Nat) (d : List (Str × Str)) : Prop :=
+  ∀ e ∈ d, e.1.length ≤ tl ∧ (decimal e.2.length).length ≤ ll
+
+/-- `int()` reads a length field back: the hypothesis on `pyInt` and `len_padding`
+under which the round trip holds -/
+def IntReads (pyInt : Str → Option Int) (ll : Nat) (lp : Char) : Prop :=
+  ∀ n : Nat, (decimal n).length ≤ ll → pyInt (rjust ll lp (decimal n)) = some (n : Int)
+
+/-- the triplet that entry `(tag, value)` must come back as -/
+def expected (tl : Nat) (tp : Char) (e : Str × Str) : Str × Int × Str :=
+  (ljust tl tp e.1, (e.2.length : Int), e.2)
+
 end N0.Tlv
